@@ -13,6 +13,7 @@ import CedarVerif.Driver.Ops.Tyck
 import CedarVerif.Driver.Ops.SchemaSyntax
 import CedarVerif.Driver.Ops.SymCC
 import CedarVerif.Driver.Ops.Level
+import CedarVerif.Driver.Ops.Tpe
 /-
 Line-protocol driver: one request per line on stdin, one reply per line on stdout.
 Unknown or malformed requests answer `(bad-op)`; the driver never defaults.
@@ -36,7 +37,8 @@ def handlers : List (Sexp → Option String) := [
   Ops.handleTyck,
   Ops.handleSchemaSyntax,
   Ops.SymCCOp.handleSymCC,
-  Ops.Level.handleLevel
+  Ops.Level.handleLevel,
+  Ops.Tpe.handleTpe
 ]
 
 def handle (x : Sexp) : String :=
